@@ -350,4 +350,25 @@ def run(prog: Program, rep: Report, tier: str):
         rep.decide(r == [("call", ("global", "len"), (("self", "dataset"),), ())], "G8.transform-after-cache", ln, "len",
                    "len(self.dataset)", f"__len__ returns {show(r[0]) if r and r[0] else '?'}", clause="C19.3",
                    nontrivial=False)
+    # ---- attribute delegation must not re-enter itself ----------------------------------------------------------------
+    rep.rule("G8.getattr-no-reentry", "__getattr__(self, item) of a cache class never looks the same name up on self again "
+             "(getattr(self, item) / self.__getattribute__ is fine, but the plain look-up failed already - that is why __getattr__ "
+             "runs): such a look-up re-enters __getattr__ without end.  The guard for the not-yet-initialised instance (copy / "
+             "unpickling create the object before 'dataset' exists) has to go through super() or raise")
+    for C in [base] + list(prog.subclasses(base, include_self=False)):
+        ga = C.methods.get("__getattr__")
+        if ga is None:
+            continue
+        ps = ga.params()
+        if len(ps) < 2:
+            continue
+        rep.analysed_add("functions", f"{ga.module.relpath}:{ga.qualname}")
+        bad = [y for y in ast.walk(ga.node) if isinstance(y, ast.Call) and isinstance(y.func, ast.Name) and y.func.id == "getattr"
+               and len(y.args) >= 2 and isinstance(y.args[0], ast.Name) and y.args[0].id == ps[0]
+               and isinstance(y.args[1], ast.Name) and y.args[1].id == ps[1]]
+        rep.decide(not bad, "G8.getattr-no-reentry", ga, "self-lookup", "no look-up of the requested name on self",
+                   f"getattr({ps[0]}, {ps[1]}) at line {bad[0].lineno if bad else 0} inside __getattr__ asks for the very attribute whose "
+                   f"look-up just failed: unbounded recursion (RecursionError) for an instance without that attribute, e.g. the "
+                   f"empty object copy / pickle create before the state is restored", line=bad[0].lineno if bad else ga.node.lineno,
+                   clause="C19.2", nontrivial=False)
     names.check(prog, rep, FILES, clause="C19.G1", floor=8)
